@@ -50,6 +50,28 @@ def isStaleRead (i : StaleIn) : Bool :=
 def storeIsStale (isLeader : Bool) (i : StaleIn) : Bool :=
   if isLeader then false else isStaleRead i
 
+/-! ### the bookkeeping the staleness decision reads (store/store.go `fsmApply`, deferred block)
+
+For EVERY entry handed to `FSM.Apply` — whatever its command type and whether or not it
+changed the database — the deferred block records `fsmIdx := l.Index`,
+`fsmUpdateTime := time.Now()` and `appendedAtTime := l.AppendedAt` together, so the three
+always describe the SAME, last applied entry. (`dbAppliedIdx` alone is only advanced for
+mutating entries.) -/
+
+structure Book where
+  fsmIdx     : Nat := 0
+  fsmUpdate  : Int := 0
+  appendedAt : Option Int := Option.none
+deriving Repr, DecidableEq
+
+/-- `fsmApply` of the entry `idx`, appended by the leader at `appended`, applied at `applied` -/
+def Book.apply (_ : Book) (idx : Nat) (applied appended : Int) : Book :=
+  { fsmIdx := idx, fsmUpdate := applied, appendedAt := some appended }
+
+/-- the arguments `(*Store).isStaleRead` hands to `IsStaleRead` -/
+def Book.staleIn (b : Book) (now lastContact : Int) (commandCommitIndex : Nat) (freshness : Int) (strict : Bool) : StaleIn :=
+  ⟨now, lastContact, b.fsmUpdate, b.appendedAt, b.fsmIdx, commandCommitIndex, freshness, strict⟩
+
 inductive Level | none | weak | strong | auto | linearizable
 deriving DecidableEq, Repr
 
@@ -156,6 +178,9 @@ def requestOld (lvl : Level) (nRW : Nat) (e : Env) : Outcome :=
 
 /-! ### line protocol
 `stale now lastContact fsmUpdate appendedAt|- fsmIndex commitIndex freshness strict` → `true|false`
+`bookreset` → `ok`; `bookapply IDX appliedNs appendedNs` → `ok` (one fsmApply);
+`book` → `fsmIdx fsmUpdateNs appendedAtNs|-`;
+`bookstale now lastContact commandCommitIndex freshness strict` → `true|false`
 `query LVL leader voter(t|f|e) ready stale readTerm strongTerm` → outcome
 `request LVL nRW leader voter ready stale readTerm strongTerm` → outcome
 (open, pragma-free, live context; a healthy cluster: VerifyLeader succeeds iff the
@@ -163,7 +188,7 @@ node is leader, the term does not change, nothing is left to wait for, Apply suc
 iff the node is leader) -/
 
 structure DState where
-  unit : Unit := ()
+  book : Book := {}
 
 def parseLevel : String → Option Level
   | "none" => some .none
@@ -215,6 +240,19 @@ def step (d : DState) (line : String) : DState × String :=
         | some a => (d, boolStr (isStaleRead ⟨now, lc, fu, some a, fi, ci, f, strict⟩))
         | Option.none => (d, "bad-op")
     | _, _, _, _, _, _, _ => (d, "bad-op")
+  | ["bookreset"] => ({}, "ok")
+  | ["bookapply", idx, applied, appended] =>
+    match idx.toNat?, applied.toInt?, appended.toInt? with
+    | some idx, some applied, some appended => ({ book := d.book.apply idx applied appended }, "ok")
+    | _, _, _ => (d, "bad-op")
+  | ["book"] =>
+    (d, toString d.book.fsmIdx ++ " " ++ toString d.book.fsmUpdate ++ " " ++
+        (match d.book.appendedAt with | some a => toString a | Option.none => "-"))
+  | ["bookstale", now, lc, ci, f, strict] =>
+    match now.toInt?, lc.toInt?, ci.toNat?, f.toInt?, LinRead.parseBool strict with
+    | some now, some lc, some ci, some f, some strict =>
+      (d, boolStr (isStaleRead (d.book.staleIn now lc ci f strict)))
+    | _, _, _, _, _ => (d, "bad-op")
   | ["query", lvl, ld, v, rd, stl, rt, st] =>
     match parseLevel lvl, LinRead.parseBool ld, parseVoter v, LinRead.parseBool rd, LinRead.parseBool stl, rt.toNat?, st.toNat? with
     | some lvl, some ld, some v, some rd, some stl, some rt, some st =>
